@@ -350,7 +350,7 @@ def execute(spec, tier, seed, only_case=None):
 
         # post-processing hook (e.g. python second-opinion verifier)
         post = spec.get("post")
-        if post:
+        if post and (only_case is None or spec.get("post_on_replay", True)):
             post(bdir, res, tier, seed)
 
         # ---------------- verdict
